@@ -430,8 +430,7 @@ func (p *Path) flushBatch() {
 			ri, mi, ai, whyi := p.solve(qi, ms, true)
 			switch ri {
 			case smt.Unsat:
-				p.nDischarged++
-				p.assume(b.cond)
+				p.nDischarged++ // implied by the path condition: nothing to add
 			case smt.Sat:
 				p.recordViolation(b, mi, ai)
 			default:
@@ -462,7 +461,11 @@ func (p *Path) flushBatch() {
 			panic(abortPath{"stopped", "nothing left after known-finding weakening"})
 		}
 	}
-	p.assume(conj)
+	if r != smt.Unsat || len(p.knownOrder) > 0 {
+		// not proved (or proved only outside the known findings): continue under
+		// the assumption; a proved obligation is implied by the path condition
+		p.assume(conj)
+	}
 }
 
 func (p *Path) recordViolation(b pendingObl, m map[string]string, arrs map[string]map[string]string) {
